@@ -1,5 +1,7 @@
 import Gowarc.Driver.FieldsH
 import Gowarc.Driver.BufH
+import Gowarc.Driver.DigestH
+import Gowarc.Driver.ParseH
 namespace Gowarc.Driver
 
 def handleLine (line : String) : String :=
@@ -9,6 +11,13 @@ def handleLine (line : String) : String :=
       | "fields" => handleFields args
       | "canon" => handleCanon args
       | "buf" => handleBuf args
+      | "hash" => handleHash args
+      | "enc" => handleEnc args
+      | "dec" => handleDec args
+      | "digest" => handleDigest args
+      | "dechdr" => handleDecHdr args
+      | "hdrparse" => handleHdrParse args
+      | "apiparse" => handleApiParse args
       | _ => "unknown-kind"
     id ++ " " ++ out
   | _ => "? bad-line"
